@@ -678,7 +678,10 @@ def swapBack (rule : Slab.Rule) : Nat → Array (ActiveEdge α) → (idx : Nat) 
     Except Fail (Array (ActiveEdge α))
   | 0, _, _, _ => .error .fuel
   | f+1, a, idx, w =>
-    if idx == 0 then .error (.panic "subtract with overflow")
+    -- lyon 747d7f78: no prefix of the re-sorted list is inside the shape: the merge vertex cannot be
+    -- placed; `sort_active_edges` returns `Err(MergeVertexOutside)`, `recover_from_error` and
+    -- `tessellator_loop` propagate it with `?` (before the fix: `idx - 1` underflowed)
+    if idx == 0 then .error (.err "Internal(MergeVertexOutside)")
     else
       match a[idx]?, a[idx-1]? with
       | some x, some y =>
